@@ -153,6 +153,16 @@ Theorem c09_uis_tag_wrap_witness :
 Proof. exact wrap_final. Qed.
 Print Assumptions c09_uis_tag_wrap_witness.
 
+(* FULL statement "no two pending plain accesses to one next cell" is false: the classic
+   speculative read of a tagged-pointer stack (finding uis:speculative-next-read; specread_sched
+   is replayed on the implementation on every run).  The value read is discarded. *)
+Example c09_uis_no_cell_conflict_refuted :
+  let c := fst (run ustep specread_sched (uinit 2 32 specread_progs)) in
+  reachable ustep (uinit 2 32 specread_progs) c /\
+  upc_of (snd c 0%nat) = AcqRead 0 0 /\ upc_of (snd c 1%nat) = AcqWrite 0 /\ hd_head 0 = 0.
+Proof. exact uis_no_cell_conflict_refuted. Qed.
+Print Assumptions c09_uis_no_cell_conflict_refuted.
+
 (* ---------------- RobustUniqueIndexSet ---------------- *)
 (* exclusivity from the cell CAS: a cell is non-empty exactly while it has a holder, and a thread
    becomes holder of a cell only by its own CAS on the empty cell *)
